@@ -24,6 +24,7 @@ import (
 	"errors"
 
 	errorsmod "cosmossdk.io/errors"
+	storetypes "cosmossdk.io/store/types"
 	sdk "github.com/cosmos/cosmos-sdk/types"
 	channeltypes "github.com/cosmos/ibc-go/v8/modules/core/04-channel/types"
 	porttypes "github.com/cosmos/ibc-go/v8/modules/core/05-port/types"
@@ -77,7 +78,7 @@ func (i IBCMiddleware) OnRecvPacket(
 	ctx sdk.Context,
 	packet channeltypes.Packet,
 	relayer sdk.AccAddress,
-) ibcexported.Acknowledgement {
+) (ack ibcexported.Acknowledgement) {
 	// NOTE: we are using destination channel here since that is the channel identifier of the
 	// source chain on Noble.
 	ccID, err := core.NewCrossChainID(core.PROTOCOL_IBC, packet.DestinationChannel)
@@ -94,7 +95,7 @@ func (i IBCMiddleware) OnRecvPacket(
 		return newErrorAcknowledgement(err)
 	}
 
-	orbiterPacket, err := i.payloadAdapter.AdaptPacket(ctx, ccID, ccPacket)
+	orbiterPacket, err := i.adaptPacket(ctx, ccID, ccPacket)
 	// If the error is the sentinel error, we call the next middleware/app in the ICS20 stack.
 	if err != nil && !errors.Is(err, core.ErrNoOrbiterPacket) {
 		return newErrorAcknowledgement(err)
@@ -103,12 +104,27 @@ func (i IBCMiddleware) OnRecvPacket(
 		return i.IBCModule.OnRecvPacket(ctx, packet, relayer)
 	}
 
+	// The packet is for the orbiter. IBC core does not recover from a panic of
+	// the application, which would abort the whole transaction of the relayer
+	// and leave the packet undeliverable. The memo is controlled by the sender
+	// and reaches the decoders and the keepers of several other modules, so a
+	// panic raised anywhere below is turned into an error acknowledgement: the
+	// state changes are discarded and the funds are refunded on the source chain.
+	defer func() {
+		if r := recover(); r != nil {
+			rethrowOutOfGas(r)
+			ack = newErrorAcknowledgement(
+				core.ErrValidation.Wrap("recovered from a panic while processing the packet"),
+			)
+		}
+	}()
+
 	err = i.payloadAdapter.BeforeTransferHook(ctx, orbiterPacket)
 	if err != nil {
 		return newErrorAcknowledgement(err)
 	}
 
-	ack := i.IBCModule.OnRecvPacket(ctx, packet, relayer)
+	ack = i.IBCModule.OnRecvPacket(ctx, packet, relayer)
 	if !ack.Success() {
 		return ack
 	}
@@ -124,6 +140,34 @@ func (i IBCMiddleware) OnRecvPacket(
 	}
 
 	return ack
+}
+
+// adaptPacket calls the payload adapter and turns a panic raised while
+// decoding the packet into an error. The memo can name any type registered
+// in the application, which is then decoded by that type's own JSON code.
+func (i IBCMiddleware) adaptPacket(
+	ctx sdk.Context,
+	ccID core.CrossChainID,
+	ccPacket adaptertypes.CrossChainPacket,
+) (packet *types.OrbiterPacket, err error) {
+	defer func() {
+		if r := recover(); r != nil {
+			rethrowOutOfGas(r)
+			packet = nil
+			err = core.ErrParsingPayload.Wrap("recovered from a panic while adapting the packet")
+		}
+	}()
+
+	return i.payloadAdapter.AdaptPacket(ctx, ccID, ccPacket)
+}
+
+// rethrowOutOfGas panics again when the recovered value signals that
+// the gas of the transaction is exhausted, which must keep aborting it.
+func rethrowOutOfGas(r any) {
+	switch r.(type) {
+	case storetypes.ErrorOutOfGas, storetypes.ErrorGasOverflow, storetypes.ErrorNegativeGasConsumed:
+		panic(r)
+	}
 }
 
 func newErrorAcknowledgement(err error) channeltypes.Acknowledgement {
